@@ -99,6 +99,30 @@ def run(check):
             b = a
         add("i54cmp", a, m=b)
 
+    # mixed comparisons of an in-range value with an *arbitrary* raw u64 / i64 (in particular values outside the range):
+    # they must agree with the ordering of the integers; evaluated against the integers directly
+    raw_req, raw_meta = [], []
+    extremes_u = [0, 1, U53_MAX - 1, U53_MAX, U53_MAX + 1, 2**53, 2**53 + 1, 2**63, U64[1] - 1, U64[1]]
+    extremes_i = [I64[0], I64[0] + 1, -2**53 - 1, -2**53, -U53_MAX, -U53_MAX + 1, -1, 0, 1, U53_MAX, 2**53, 2**53 + 1, I64[1] - 1, I64[1]]
+    for k in range(4000 if check.thorough else 600):
+        a = check.rng.choice(valid_u)
+        mm = check.rng.choice(extremes_u) if k % 2 else check.rng.randint(0, U64[1])
+        raw_req.append({"op": "int", "f": "u53cmpraw", "n": str(a), "m": str(mm)})
+        raw_meta.append(("u53cmpraw", a, mm))
+        a = check.rng.choice(valid_i)
+        mm = check.rng.choice(extremes_i) if k % 2 else check.rng.randint(I64[0], I64[1])
+        raw_req.append({"op": "int", "f": "i54cmpraw", "n": str(a), "m": str(mm)})
+        raw_meta.append(("i54cmpraw", a, mm))
+    for (op, a, mm), ra in zip(raw_meta, runner(raw_req)):
+        check.saw((op, a, mm), nontrivial=not (-U53_MAX <= mm <= U53_MAX))
+        check.count(op)
+        want = {"ok": [a < mm, a == mm, a > mm, a <= mm, a >= mm]}
+        if ra != want:
+            check.violation("%s: comparing %d with the raw value %d gives [<, ==, >, <=, >=] = %s, the integers give %s" % (
+                "U53" if op.startswith("u") else "I54", a, mm, ra.get("ok"), want["ok"]),
+                case={"op": op, "n": a, "m": mm}, impl=ra, model=want, failing_input=True)
+            break
+
     mans = model(mreq, with_unicode=False)
     rans = [norm_int_answer(a) for a in runner(rreq)]
     boundaries = [0, U53_MAX, -U53_MAX, 2**8, 2**16, 2**32, 2**7, 2**15, 2**31, -2**7, -2**15, -2**31, 2**53, -2**53, 2**64, 2**63, -2**63]
